@@ -101,8 +101,6 @@ func NewWordList(list []string) (*WordList, error) {
 			if unique[cap] {
 				if cap != w { // w is "polish"
 					delete(unique, cap) // delete won't change what is in range
-				} else {
-					unCapable++
 				}
 			}
 		}
@@ -112,7 +110,11 @@ func NewWordList(list []string) (*WordList, error) {
 	var ourWords []string
 	for w := range unique {
 		ourWords = append(ourWords, w)
-
+		// Count here, over the words actually kept, so that the result does
+		// not depend on the order in which the map yields "Polish" and "polish"
+		if strings.Title(w) == w {
+			unCapable++
+		}
 	}
 
 	if len(list) > len(ourWords) {
